@@ -155,3 +155,38 @@ def sub_bodies(max_n: int = 6, version: int = 8) -> Iterator[str]:
 
     for n in range(0, max_n + 1):
         yield from rec(0, n, [], 0, 0, 0)
+
+
+def ladders(nseg: int = 5, forward_only: bool = True, version: int = 8) -> Iterator[str]:
+    """G1L - 'ladder' programs: nseg labelled segments S0..S(n-1); each holds an optional marker
+    instruction (`int 5`) and ends in fall-through, `return`, `b Sj` or `int 1; bnz Sj` (j > i when
+    forward_only, any j otherwise); the last segment returns.  Every such program: all the ways
+    several paths can reach the same code in different orders."""
+    import itertools  # pylint: disable=import-outside-toplevel
+
+    header = f"#pragma version {version}\n"
+
+    def terms(i: int) -> List[str]:
+        if i == nseg - 1:
+            return ["int 1\nreturn"]
+        out = ["", "int 1\nreturn"]
+        for j in range(nseg):
+            if j == i or (forward_only and j < i):
+                continue
+            out.append(f"b S{j}")
+            out.append(f"int 1\nbnz S{j}")
+        return out
+
+    for marks in itertools.product((False, True), repeat=nseg):
+        if sum(marks) == 0:
+            continue
+        for ts in itertools.product(*[terms(i) for i in range(nseg)]):
+            parts = []
+            for i in range(nseg):
+                seg = [f"S{i}:"] if (i or not forward_only) else []
+                if marks[i]:
+                    seg += ["int 5", "pop"]
+                if ts[i]:
+                    seg.append(ts[i])
+                parts.append("\n".join(seg))
+            yield header + "\n".join(p for p in parts if p) + "\n"
